@@ -20,7 +20,7 @@ CONF = {
     'C02': dict(
         inv=['InvC02', 'InvViews'],
         mc=[('topology', ['Submit', 'RemoveApp', 'Down', 'Up', 'RemoveServer', 'AddServer', 'Tick'], None)],
-        gen=['topology', 'tracker', 'traits', 'affinity', 'identity'], probe=True,
+        gen=['topology', 'tracker', 'traits', 'twins', 'identity'], probe=True,
         rule='a history counts when a probe instance is submitted to a quiescent cell and the leaf-scan oracle finds an up server that takes it as it is; distinct = distinct environment histories'),
     'C03': dict(
         inv=['InvC03', 'InvViews'],
